@@ -171,7 +171,9 @@ def step (d : DSt) (ws : List String) : DSt × String :=
     let byStamp := sortByFst (d.st.cache.map (fun e => (e.2.2, e.1)))
     (d, joinOr (byStamp.filterMap (fun e => (lookup e.2 d.st.cache).map (fun x => s!"{e.2}:{x.1}"))))
   | ["pending"] =>
-    (d, s!"t={natsStr (d.st.tasks.map (·.1))} n={natsStr (d.st.notes.map (·.1))}")
+    -- notifications grouped by key (stable): their order across different keys is the order in which sender tasks
+    -- happen to be polled once the channel has room, which nothing depends on (`deliver` is legal per key, FIFO)
+    (d, s!"t={natsStr (d.st.tasks.map (·.1))} n={natsStr ((d.st.notes.mergeSort (fun a b => decide (a.2.k ≤ b.2.k))).map (·.1))}")
   | ["metrics", k] =>
     match k.toNat? with
     | some k =>
